@@ -327,3 +327,12 @@ claim(
     "abstract interpretation of the solver step and of the unfolding on concrete small grids of free symbols; entry-wise polynomial identity of the two compositions",
     "DESIGN.md §5 C33",
 )
+
+claim(
+    "C38",
+    "other",
+    "Narrow: equality of whole runs is not decided; decided are the three things it rests on. (1) UniformGrid.resolve and QuasiUniformGrid.resolve, interpreted for symbolic spacing and centre on several shapes, construct the RectilinearGrid from the same edges centre_a + s (i - n_a/2) (construction intercepted, entry-wise), _resolve_grid_from_volume derives the same cell counts for both policies and leaves an explicit grid alone. (2) RectilinearGrid.cfl_time_step gives the same step on its uniform and its general branch for equal minimal spacings, the policies' time_step_duration equals it, and with that step _metric_scale and TFSFPlaneSource._metric_scale_at_plane are identically 1 on equal widths for both stencils, so the metric-aware path coincides with the uniform one. (3) _center_to_bounds_for_grid, length_to_cell_count and axis_extent select the same cells for an equal-spaced grid whatever its origin, over all position / size classes. Float round-off of edge arithmetic and the uniformity tolerance (C37) are not decided.",
+    TB + "; intercepted RectilinearGrid construction; rational numpy model of C37; sqrt opaque with sqrt(u)^2 = u",
+    "abstract interpretation with symbolic spacing / centre against closed-form edges; polynomial identities for time step and metric factors; order-type enumeration for origin independence",
+    "DESIGN.md §5 C38",
+)
